@@ -6,7 +6,7 @@ from symx.vloop import Script, Ticks
 from .common import TTL_FOREVER, loop_clean, new_loop, stub_uniform, tobytes
 
 PROPERTY = "C04"
-BUDGET_S = {"quick": 900, "thorough": 3400}
+BUDGET_S = {"quick": 900, "thorough": 7200}
 STUBS = [
     "network: SimNet - datagrams are the real bytes, delivered after 1 tick, multicast to every other peer / unicast by destination address; loss, duplication and reordering are applied to datagrams sent inside the disturbance window",
     "event loop: VirtualLoop shared by both stacks (symbolic ticks; stop/start/crash/restart injected at solver-chosen instants and iterations)",
